@@ -241,8 +241,8 @@ let handle_end () =
     (* executable mirrors of the theorems on what the implementation returned *)
     let st = int_of_z r.sstatus in
     if st < 0 || st > 2 then preport "status: RUN %d (%s) returned status %d" ri.rid ri.solver st;
-    if st = 1 && not (List.exists (fun e -> e.ev_conv) evs) then
-      preport "status: RUN %d (%s) returned `converged` but no done() call had the converged flag" ri.rid ri.solver;
+    if st = 1 && not (List.exists (fun e -> e.ev_conv && e.ev_iter_ok && e.ev_ret) evs) then
+      preport "status: RUN %d (%s) returned `converged` but no done() call had the converged flag with iter_ok (repo 85997bc)" ri.rid ri.solver;
     if st = 1 && is_ls ri.kind && not (has_nan r.sgx) && not (tf (gradient_test_of r.sgx r.sfx) < tf ri.eps) then
       preport "truthful: RUN %d (%s) returned `converged` with gradient_test = %s >= epsilon = %s // %s" ri.rid ri.solver
         (hex (gradient_test_of r.sgx r.sfx)) (hex ri.eps) rline;
